@@ -164,7 +164,7 @@ def gaussian_blurring(
         if ndim == 2:
             for i in range(ngrids[0]):
                 for j in range(ngrids[1]):
-                    indice = i * ngrids[0] + j
+                    indice = i * ngrids[1] + j
                     grid_positions[n, indice] = [X[i], Y[j]]
         else:
             Z = np.linspace(bxobounds[2, 0], bxobounds[2, 1], ngrids[2])
